@@ -283,6 +283,16 @@ for t_i in range(2 if Q else 12):
             opts["first_nonzero_freq_idx"] = 0
             list(bim.scat_unshifted_transfer_functions(some, tx, rx, freqs, obj, **opts))       # history
             tfs = {vn: tf for vn, (tf, _) in zip(views, bim.scat_unshifted_transfer_functions(views, tx, rx, freqs, obj, **opts))}
+            # the results KEPT by the caller (all views collected, as above) are those a caller sees who uses each one before asking
+            # for the next (copied on the fly here)
+            seen_ = {vn: np.array(tf, copy=True) for vn, (tf, _) in zip(views, bim.scat_unshifted_transfer_functions(views, tx, rx, freqs, obj, **opts))}
+            for vn in views:
+                if not np.array_equal(tfs[vn], seen_[vn], equal_nan=True):
+                    chk.violation("pipeline:kept-results", f"scat_unshifted_transfer_functions: the transfer function of view {vn} kept by the caller "
+                                  "while the other views were computed differs from the one it had when it was yielded",
+                                  {"view": vn, "scatterer": sname, "numangles_for_scat_precomp": nang, "frequencies": freqs,
+                                   "max_abs_difference": float(np.nanmax(np.abs(tfs[vn] - seen_[vn])))})
+                    break
             tol = RTOL if nang == 0 else 1e-9
             for (vn, a), fbin in itertools.product(tfs.items(), range(len(freqs))):
                 scale = max(float(np.nanmax(np.abs(x[..., fbin]))) for x in tfs.values()) or 1.0
